@@ -24,7 +24,7 @@ class C10(PoolCheck):
     GROUP = 1
     CASE_TIMEOUT = 120.0
     FAMILIES = ('xsitype', 'ids', 'keys', 'fixed', 'wild', 'subst', 'assert11', 'ns', 'mixed', 'shadow', 'idfields',
-                'ondemand', 'simple', 'grouped', 'deepkey', 'laxbuilt')
+                'ondemand', 'simple', 'grouped', 'deepkey', 'laxbuilt', 'vcond')
     CORPUS = False
     ASYNC = True
     RULE = ("case = history of 2-12 operations (validate / is_valid / iter_errors drained or abandoned / decode "
